@@ -35,11 +35,13 @@ func C06(c *Ctx) {
 	r.Rule("C06-h", "a memo entry that is found is the answer: in parseExprWrap and parseRuleMemoize every path on which the lookup succeeded returns without evaluating, and every path that evaluates after a lookup assumes exactly that the lookup missed - no further condition decides whether a hit is used (a hit ignored under some condition re-evaluates the expression at that offset every time: the bound of one evaluation per expression and offset is lost)")
 	r.Rule("C06-w", "configuration flags are assigned only by their option function (and newParser defaults): memoize, debug, recover, allowInvalidUTF8, maxExprCnt, entrypoint")
 
+	r.Rule("C06-l", "a memo entry does not outlive the errors of its evaluation: where the error list is cut back to a snapshot the entries made since are invalidated (C11-i under this property, finding F28) - otherwise Memoize(true) loses code-block errors of rules evaluated inside a discarded growth attempt")
 	abs := c.allAbs()
 	r.Min("semantic variants analysed", 16, len(abs))
 	n := 0
 	for _, a := range abs {
 		c06w(c, a.V)
+		rolledBackErrorsVsMemo(c, a.V, "C06-l")
 		if a.V.Params.Optimize {
 			// debug / memoize / statistics code must be absent
 			var found []string
